@@ -3,13 +3,18 @@ import re
 from lib import common
 from lib.common import Broken
 
-THEOREMS = ["C17_private_partial"]
+THEOREMS = ["C17_lookups_fresh", "C17_lookups_covered", "C17_fresh_sound", "C17_private_partial"]
 
 
 def run(res, args):
-    res.assumptions = ["aliasing is a property of Go's memory that a pure Gallina model cannot get wrong: the theorem documents the copy discipline, the claim is carried by the harness run",
+    res.assumptions = ["veproduct and veconst: every function returning a map or slice is transcribed by `gvgen alias` into the alias IR on every run (tie T-gen); the analysis and its soundness are Coq (Tables/Alias.v, AliasFacts.v); the transcription (which expressions allocate, which statements store into package-level variables, flattened control flow) is trusted and listed in the trusted base",
+                       "veregister (GetRegisterListByProduct and the Append* family, slices of structs built through pointer receivers) is outside the alias IR: covered by the harness run only",
                        "lookup functions covered: GetStringMap, IntToStringMap of all 20 enum and 3 field-list factories, Fields()/Decode() of the three field-list types (raw values incl. 0), GetRegisterListByProduct for products of every class (each against every other), the Append* family lists"]
     common.build_harness()
+    from lib import gen
+    gen.regenerate_all()
+    if gen.ALIAS_BROKEN is not None:
+        res.broken.append(gen.ALIAS_BROKEN)
     common.coq_make()
     common.standard_proof_cov(res, "C17", THEOREMS)
     rc, out = common.sh("timeout 600 %s copies" % common.GVRUN)
@@ -25,7 +30,7 @@ def run(res, args):
                    samples=["veproduct.GetStringMap x overwrite", "SolarOffReasonsFactoryType.Fields(raw=0) x delete",
                             "GetRegisterListByProduct(0xa056) x truncate-and-append -> GetRegisterListByProduct(0xa053)"],
                    judge_failures=nf)
-    res.partial.append("aliasing itself is outside the pure model: exercised, not proved")
+    res.partial.append("register lists (veregister) are covered by the harness run only; the inter-procedural step of the alias theorem is stated relative to an oracle for callee results")
     for l in out.splitlines():
         if l.startswith("COPY-FAIL"):
             res.add_violation(l[10:], key="C17:" + re.sub(r"\d+ bytes.*", "", l[10:])[:150], input=l[10:])
